@@ -209,6 +209,17 @@ fn generate_dynamic_machine(machine: &StateMachine) -> Result<TokenStream2> {
                     if edge.event == *event_snake {
                         let source_state = state;
                         let target_state = &edge.target;
+                        let source_str = source_state.to_string();
+
+                        // An InvalidTransition abort carries no state; report the one we were in
+                        let err_return = quote! {
+                            return Err(match state_machines::DynamicError::from_guard_error(err) {
+                                state_machines::DynamicError::InvalidTransition { event, .. } => {
+                                    state_machines::DynamicError::invalid_transition(#source_str, event)
+                                }
+                                other => other,
+                            });
+                        };
 
                         // Generate the match arm for this transition
                         // Use event_pascal for enum variant matching
@@ -221,7 +232,7 @@ fn generate_dynamic_machine(machine: &StateMachine) -> Result<TokenStream2> {
                                             Ok(new_machine) => #any_state_name::#target_state(new_machine),
                                             Err((old_machine, err)) => {
                                                 self.inner = ::core::option::Option::Some(#any_state_name::#source_state(old_machine));
-                                                return Err(state_machines::DynamicError::from_guard_error(err));
+                                                #err_return
                                             }
                                         }
                                     }
@@ -233,7 +244,7 @@ fn generate_dynamic_machine(machine: &StateMachine) -> Result<TokenStream2> {
                                             Ok(new_machine) => #any_state_name::#target_state(new_machine),
                                             Err((old_machine, err)) => {
                                                 self.inner = ::core::option::Option::Some(#any_state_name::#source_state(old_machine));
-                                                return Err(state_machines::DynamicError::from_guard_error(err));
+                                                #err_return
                                             }
                                         }
                                     }
@@ -246,7 +257,7 @@ fn generate_dynamic_machine(machine: &StateMachine) -> Result<TokenStream2> {
                                         Ok(new_machine) => #any_state_name::#target_state(new_machine),
                                         Err((old_machine, err)) => {
                                             self.inner = ::core::option::Option::Some(#any_state_name::#source_state(old_machine));
-                                            return Err(state_machines::DynamicError::from_guard_error(err));
+                                            #err_return
                                         }
                                     }
                                 }
@@ -258,7 +269,7 @@ fn generate_dynamic_machine(machine: &StateMachine) -> Result<TokenStream2> {
                                         Ok(new_machine) => #any_state_name::#target_state(new_machine),
                                         Err((old_machine, err)) => {
                                             self.inner = ::core::option::Option::Some(#any_state_name::#source_state(old_machine));
-                                            return Err(state_machines::DynamicError::from_guard_error(err));
+                                            #err_return
                                         }
                                     }
                                 }
